@@ -17,8 +17,6 @@ def classify(w):
     bio_present = (start == "pheno_rich" or "bio_add" in prev) and "bio_remove" not in prev
     if last == "abs_inst" and bio_present and "changed bioavailability from True to False" in what:
         return "instantaneous_absorption_drops_bioavailability"
-    if last == "abs_seq" and bio_present and "changed bioavailability from True to False" in what:
-        return "seq_absorption_after_zero_order_drops_bioavailability"
     if what.startswith("reversibility") and last in ("transits_1", "transits_3") and bio_present:
         return "transit_removal_loses_bioavailability"
     if last == "transits_0" and "frame: transits_0 changed lagtime from True to False" in what:
@@ -28,6 +26,10 @@ def classify(w):
         return "first_order_absorption_after_seq_removes_lag_time"
     if last == "lag_on" and absorb and absorb[-1] == "abs_seq" and what.startswith("reversibility"):
         return "lag_time_requested_with_seq_zo_fo_absorption"
+    elim = [x for x in prev if x.startswith("elim_")]
+    if last == "metabolite" and elim and elim[-1] in ("elim_mm", "elim_zo", "elim_mix") and \
+            what.startswith("frame: metabolite changed elimination from") and what.endswith("to ('FO',)"):
+        return "metabolite_on_nonlinear_elimination_reported_as_first_order"
     if last in ("transits_1", "transits_1_nodepot") and "transits_3" in prev and what.startswith("detectability"):
         i = prev.index("transits_3")
         had_depot = start == "pheno_oral" or any(x in ("abs_fo", "abs_seq") for x in prev[:i])
